@@ -11,6 +11,8 @@ require (
 	github.com/ipfs/go-datastore v0.9.2
 	github.com/ipfs/go-ipld-format v0.6.4
 	github.com/ipfs/go-log/v2 v2.9.2
+	github.com/ipfs/go-unixfsnode v1.10.5
+	github.com/ipld/go-car/v2 v2.17.0
 	github.com/ipld/go-codec-dagpb v1.7.0
 	github.com/ipld/go-ipld-prime v0.24.0
 	github.com/libp2p/go-libp2p v0.48.1-0.20260709142922-ec408fcc60c9
@@ -56,8 +58,6 @@ require (
 	github.com/ipfs/go-metrics-interface v0.3.0 // indirect
 	github.com/ipfs/go-peertaskqueue v0.8.3 // indirect
 	github.com/ipfs/go-test v0.4.1 // indirect
-	github.com/ipfs/go-unixfsnode v1.10.5 // indirect
-	github.com/ipld/go-car/v2 v2.17.0 // indirect
 	github.com/klauspost/cpuid/v2 v2.3.0 // indirect
 	github.com/libp2p/go-buffer-pool v0.1.0 // indirect
 	github.com/libp2p/go-cidranger v1.1.0 // indirect
